@@ -941,6 +941,7 @@ class Pyramid(object):
         ready_queue = mp.Queue()
         done_queue = mp.Queue(maxsize=2 * parallel)
         done_event = mp.Event()
+        error_event = mp.Event()
 
         # Walk the pyramid in preparation. We have three things to do: (1) count
         # number of operations; (2) seed ready queue; (3) prefill "readiness"
@@ -1017,7 +1018,7 @@ class Pyramid(object):
         for _ in range(parallel):
             w = mp.Process(
                 target=_mp_walk_worker,
-                args=(done_queue, ready_queue, done_event, callback),
+                args=(done_queue, ready_queue, done_event, error_event, callback),
             )
             w.daemon = True
             w.start()
@@ -1064,6 +1065,10 @@ class Pyramid(object):
 
         for w in workers:
             w.join()
+
+        from .par_util import raise_if_worker_failed
+
+        raise_if_worker_failed(error_event)
 
     def visit_leaves(
         self,
@@ -1161,6 +1166,7 @@ class Pyramid(object):
 
         ready_queue = mp.Queue(maxsize=2 * parallel)
         done_event = mp.Event()
+        error_event = mp.Event()
 
         # Create workers:
 
@@ -1169,7 +1175,7 @@ class Pyramid(object):
         for _ in range(parallel):
             w = mp.Process(
                 target=_mp_visit_worker,
-                args=(ready_queue, done_event, callback),
+                args=(ready_queue, done_event, error_event, callback),
             )
             w.daemon = True
             w.start()
@@ -1195,6 +1201,10 @@ class Pyramid(object):
 
         for w in workers:
             w.join()
+
+        from .par_util import raise_if_worker_failed
+
+        raise_if_worker_failed(error_event)
 
 
 class PyramidReductionIterator(object):
@@ -1380,7 +1390,7 @@ def _make_position_filter(apex):
     return position_filter
 
 
-def _mp_walk_worker(done_queue, ready_queue, done_event, callback):
+def _mp_walk_worker(done_queue, ready_queue, done_event, error_event, callback):
     """
     Process tiles that are ready.
     """
@@ -1394,11 +1404,21 @@ def _mp_walk_worker(done_queue, ready_queue, done_event, callback):
                 break
             continue
 
-        callback(pos)
+        # If the callback fails, record that (the parent raises once the walk
+        # has wound down) but keep the protocol going: the tile is still
+        # reported, so that the dispatcher can finish and shut everything down.
+        try:
+            callback(pos)
+        except Exception:
+            import traceback
+
+            traceback.print_exc()
+            error_event.set()
+
         done_queue.put(pos)
 
 
-def _mp_visit_worker(ready_queue, done_event, callback):
+def _mp_visit_worker(ready_queue, done_event, error_event, callback):
     """
     Process tiles that are ready.
     """
@@ -1419,4 +1439,12 @@ def _mp_visit_worker(ready_queue, done_event, callback):
                 break
             continue
 
-        callback(*args)
+        # Keep draining the queue if the callback fails, so that the producer
+        # is never left blocked; the parent raises after joining the workers.
+        try:
+            callback(*args)
+        except Exception:
+            import traceback
+
+            traceback.print_exc()
+            error_event.set()
